@@ -1,6 +1,257 @@
+/-
+`sqfsmodel c05 [current]` — line-protocol driver of the C05 reader models (same lines as harness/h_c05.c).
+Without argument the repaired logic (`fixed := true`) is run; with `current` the logic of the unpatched code,
+which is what the check uses to classify a crash of the real code as one of the recorded findings.
+
+Every answer line is followed, on the same line, by ` UNSAFE <buf>:<off>+<len>><cap>` for the first access that
+is not inside its buffer (the specification predicate of the property, evaluated on the model's access list).
+-/
 import Driver.Util
+import Sqfs.Model.ReaderEnv
+import Sqfs.Model.ReaderWalk
 namespace Driver.C05
-/-- stub: the model driver for C05 is not built yet -/
-def run (_args : List String) : IO Unit := do
-  IO.eprintln "sqfsmodel: model C05 not built yet"
+open Sqfs.ReaderBounds Sqfs.ReaderEnv Sqfs.ReaderWalk
+
+structure St where
+  fixed : Bool
+  img : ByteArray := ByteArray.empty
+  cfg : Option (UInt64 × UInt64) := none
+  m : MetaSt := MetaSt.init
+
+def num (s : String) : Option Nat := s.toNat?
+def u64 (s : String) : Option UInt64 := (num s).map (·.toUInt64)
+def u32 (s : String) : Option UInt32 := (num s).map (·.toUInt32)
+
+def wordsOf (s : String) : Option (Array UInt32) :=
+  if s = "-" then some #[] else
+    (s.splitOn ",").foldl (fun acc t => match acc, num t with
+      | some a, some n => some (a.push n.toUInt32)
+      | _, _ => none) (some #[])
+
+def bufName : Buf → String
+  | .metaData => "metaData" | .metaScratch => "metaScratch" | .dst => "dst" | .drScratch => "drScratch"
+  | .blockOut => "blockOut" | .fragBlock => "fragBlock" | .dataBlock => "dataBlock" | .fragOut => "fragOut"
+  | .streamBuf => "streamBuf" | .inoData => "inoData" | .table => "table" | .locations => "locations"
+  | .inodeExtra => "inodeExtra" | .dirEntName => "dirEntName" | .idxSrc => "idxSrc" | .idxOut => "idxOut"
+  | .path => "path"
+
+def unsafeTag (acc : List Access) : String :=
+  match acc.find? (fun a => !(decide a.inBounds)) with
+  | none => ""
+  | some a => s!" UNSAFE {bufName a.buf}:{a.off}+{a.len}>{a.cap}"
+
+def mkCfg (s : St) (c : UInt64 × UInt64) : MetaCfg := ⟨c.1, c.2, metaSrc s.img⟩
+
+def showPos (m : MetaSt) : String :=
+  let p := getPosition m
+  s!"ok pos {p.1} {p.2}"
+
+def showRes (r : Res) : String :=
+  (match r.r with
+   | .ok () => showPos r.st
+   | .error e => "err " ++ e.name) ++ unsafeTag r.acc
+
+/-- the stream loop of the harness: `get_buffered_data` / `advance_buffer` until eof or error -/
+def streamLoop (fixed : Bool) (im : ByteArray) (bs : UInt32) (words : Array UInt32) (fragIdx fragOff : UInt32)
+    (fstart : UInt64) (fword : UInt32) : Nat → StreamSt → UInt64 → String → List Access → String × List Access
+  | 0, _, _, out, acc => (out ++ "toolong", acc)
+  | fuel + 1, s, diskOff, out, acc =>
+    let w := words.getD s.blkIdx.toNat 0
+    let want := if s.filesz < bs.toUInt64 then s.filesz.toUInt32 else bs
+    let l := blkLoad im diskOff w want
+    let pre := precacheFrag im bs fragIdx fstart fword
+    let needFrag := !(s.bufOff < s.bufUsed) && s.filesz != 0 && !(s.blkIdx < s.blkCount)
+    let r := streamFill fixed bs s w l pre.1 fragOff
+    let acc := acc ++ (if needFrag then pre.2 else []) ++ r.2.2
+    match r.2.1 with
+    | .eof => (out ++ "eof", acc)
+    | .err e => (out ++ "err " ++ e.name, acc)
+    | .data n =>
+      let s' := r.1
+      let diskOff' := if s.blkIdx < s.blkCount && !(s.bufOff < s.bufUsed) then diskOff + (onDiskSize w).toUInt64 else diskOff
+      -- advance_buffer(sz): buf_off += min(buf_used - buf_off, sz)
+      streamLoop fixed im bs words fragIdx fragOff fstart fword fuel { s' with bufOff := s'.bufOff + n } diskOff'
+        (out ++ toString n ++ " ") acc
+
+def bytesToImage (l : List UInt8) : ByteArray := ByteArray.mk l.toArray
+
+/-- predicted outcome of `sqfs_meta_reader_read_inode` on one uncompressed block holding `b` -/
+def inodeOp (bs : UInt64) (b : ByteArray) : String :=
+  let n := b.size
+  if n < 16 then "err" else
+  let ty := (le16 b 0).toNat
+  let need (k : Nat) : Bool := 16 + k ≤ n
+  let fileLike (hdr : Nat) (fsz : UInt64) (fi fo : UInt32) : String :=
+    if !need hdr then "err" else
+    match readInodeFile fsz bs fi fo with
+    | .error _ => "err"
+    | .ok acc =>
+      let len := (acc.headD ⟨.inodeExtra, 0, 0, 0⟩).len
+      if 16 + hdr + len ≤ n then s!"ok {ty} {len % 4294967296}" ++ unsafeTag acc else "err"
+  let slinkLike (extra : Nat) : String :=
+    if !need 8 then "err" else
+    let ts := le32 b 20
+    match readInodeSlink ts with
+    | .error _ => "err"
+    | .ok acc => if 16 + 8 + ts.toNat + extra ≤ n then s!"ok {ty} {ts.toNat}" ++ unsafeTag acc else "err"
+  let fixedSz (k : Nat) : String := if need k then s!"ok {ty} 0" else "err"
+  match ty with
+  | 1 => fixedSz 16
+  | 2 => if need 16 then fileLike 16 (le32 b 28).toUInt64 (le32 b 20) (le32 b 24) else "err"
+  | 3 => slinkLike 0
+  | 4 | 5 => fixedSz 8
+  | 6 | 7 => fixedSz 4
+  | 8 =>
+    if !need 24 then "err" else
+    let dsz := le32 b 20
+    let cnt := (le16 b 32).toNat
+    if dsz == 0 then s!"ok {ty} 0" else
+    -- walk the index entries the block actually holds
+    let rec go (k : Nat) (pos : Nat) (szs : List UInt32) : Option (List UInt32) :=
+      match k with
+      | 0 => some szs.reverse
+      | k + 1 =>
+        if pos + 12 > n then none else
+        let sz := le32 b (pos + 8)
+        let nm := (sz + 1).toNat
+        if pos + 12 + nm > n then none else go k (pos + 12 + nm) (sz :: szs)
+    match go cnt 40 [] with
+    | none => "err"
+    | some szs =>
+      match readInodeDirExt dsz szs with
+      | .error _ => "err"
+      | .ok (_, iu, acc) => s!"ok {ty} {iu.toNat % 4294967296}" ++ unsafeTag acc
+  | 9 => if need 40 then fileLike 40 (le64 b 24) (le32 b 44) (le32 b 48) else "err"
+  | 10 => slinkLike 4
+  | 11 | 12 => fixedSz 12
+  | 13 | 14 => fixedSz 8
+  | _ => "err"
+
+def parseGraph (spec : String) : Option (DirGraph × Nat × Nat) :=
+  -- nodes separated by ';' : ref:inum:isDir:c1,c2   (first node = root)
+  let nodes := (spec.splitOn ";").filterMap (fun t =>
+    match t.splitOn ":" with
+    | [r, i, d, cs] =>
+      match num r, num i with
+      | some r, some i =>
+        let kids := if cs = "-" then [] else (cs.splitOn ",").filterMap num
+        some (r, i.toUInt32, decide (d = "1"), kids)
+      | _, _ => none
+    | _ => none)
+  match nodes with
+  | [] => none
+  | (root, _, _, _) :: _ =>
+    let find (r : Nat) := nodes.find? (fun x => x.1 == r)
+    some (⟨fun r => match find r with | some x => x.2.2.2 | none => [],
+           fun r => match find r with | some x => x.2.2.1 | none => false,
+           fun r => match find r with | some x => x.2.1 | none => 0⟩, root, nodes.length)
+
+def showWalk (r : Except Err Nat) : String :=
+  match r with
+  | .ok n => s!"ok {n}"
+  | .error .fuel => "diverges"
+  | .error e => "err " ++ e.name
+
+def step (s : St) (line : String) : St × String :=
+  match words line with
+  | ["img", h] => match fromHex h with
+      | some b => ({ s with img := bytesToImage b, cfg := none, m := MetaSt.init }, "ok")
+      | none => (s, "bad-op")
+  | ["mr", a, b] => match u64 a, u64 b with
+      | some a, some b => ({ s with cfg := some (a, b), m := MetaSt.init }, "ok")
+      | _, _ => (s, "bad-op")
+  | ["seek", a, b] => match s.cfg, u64 a, u64 b with
+      | some c, some a, some b =>
+        let r := seek (mkCfg s c) s.m a b
+        ({ s with m := r.st }, showRes r)
+      | _, _, _ => (s, "bad-op")
+  | ["read", a] => match s.cfg, u64 a with
+      | some c, some a =>
+        let r := mread s.fixed (mkCfg s c) s.m a
+        ({ s with m := r.st }, showRes r)
+      | _, _ => (s, "bad-op")
+  | ["getfrag", bs, filesz, nblk, fidx, foff, fstart, fword] =>
+      match u32 bs, u64 filesz, u64 nblk, u32 fidx, u32 foff, u64 fstart, u32 fword with
+      | some bs, some filesz, some nblk, some fidx, some foff, some fstart, some fword =>
+        if bs == 0 then (s, "bad-op") else
+        let pre := precacheFrag s.img bs fidx fstart fword
+        let preU : Except Err Unit := match pre.1 with | .ok _ => .ok () | .error e => .error e
+        -- the precache only happens when the fragment is needed
+        let needs := !(nblk > 0xFFFFFFFFFFFFFFFF / bs.toUInt64) && !(nblk * bs.toUInt64 ≥ filesz)
+        let out := match getFragment s.fixed bs filesz nblk foff preU with
+          | .error e => "err " ++ e.name ++ unsafeTag (if needs then pre.2 else [])
+          | .ok acc =>
+            let sz := (acc.headD ⟨.fragOut, 0, 0, 0⟩).len
+            s!"ok {sz}" ++ unsafeTag ((if needs then pre.2 else []) ++ acc)
+        (s, out)
+      | _, _, _, _, _, _, _ => (s, "bad-op")
+  | ["stream", bs, filesz, start, fidx, foff, fstart, fword, ws] =>
+      match u32 bs, u64 filesz, u64 start, u32 fidx, u32 foff, u64 fstart, u32 fword, wordsOf ws with
+      | some bs, some filesz, some start, some fidx, some foff, some fstart, some fword, some ws =>
+        if bs == 0 then (s, "bad-op") else
+        let st : StreamSt := ⟨0, 0, filesz, 0, ws.size.toUInt32, false⟩
+        let r := streamLoop s.fixed s.img bs ws fidx foff fstart fword 4098 st start "" []
+        (s, r.1 ++ unsafeTag r.2)
+      | _, _, _, _, _, _, _, _ => (s, "bad-op")
+  | ["getblk", bs, filesz, start, idx, ws] =>
+      match u32 bs, u64 filesz, u64 start, num idx, wordsOf ws with
+      | some bs, some filesz, some start, some idx, some ws =>
+        if bs == 0 then (s, "bad-op") else
+        if idx ≥ ws.size then (s, "err OOB") else
+        let (off, unpacked) := blockLocation bs ws start filesz idx
+        let w := ws.getD idx 0
+        let r := getBlock bs .blockOut w unpacked (blkLoad s.img off w unpacked)
+        (s, (match r.1 with | .ok n => s!"ok {n}" | .error e => "err " ++ e.name) ++ unsafeTag r.2)
+      | _, _, _, _, _ => (s, "bad-op")
+  | ["dread", bs, filesz, start, fidx, foff, fstart, fword, off, size, ws] =>
+      match u32 bs, u64 filesz, u64 start, u32 fidx, u32 foff, u64 fstart, u32 fword, u64 off, u32 size, wordsOf ws with
+      | some bs, some filesz, some start, some fidx, some foff, some fstart, some fword, some off, some size, some ws =>
+        if bs == 0 then (s, "bad-op") else
+        let blkOk := fun (i : Nat) =>
+          let (o, _) := blockLocation bs ws start 0 i
+          let w := ws.getD i 0
+          match (getBlock bs .dataBlock w bs (blkLoad s.img o w bs)).1 with | .ok _ => true | .error _ => false
+        let pre := precacheFrag s.img bs fidx fstart fword
+        let r := dataRead bs (fun i => ws.getD i 0) blkOk ws.size filesz off size foff pre.1
+        (s, (match r.1 with | .ok n => s!"ok {n}" | .error _ => "err") ++ unsafeTag r.2)
+      | _, _, _, _, _, _, _, _, _, _ => (s, "bad-op")
+  | ["inode", bs, h] => match u64 bs, fromHex h with
+      | some bs, some b => if bs == 0 then (s, "bad-op") else (s, inodeOp bs (bytesToImage b))
+      | _, _ => (s, "bad-op")
+  | ["dirent", h] => match fromHex h with
+      | some b =>
+        let im := bytesToImage b
+        if im.size < 8 then (s, "err") else
+        let sz := le16 im 6
+        if 8 + sz.toNat + 1 ≤ im.size then (s, s!"ok {sz}" ++ unsafeTag (readDirEnt sz)) else (s, "err")
+      | none => (s, "bad-op")
+  | ["unpack", used, idx, h] => match u32 used, u64 idx, fromHex h with
+      | some used, some idx, some b =>
+        let im := bytesToImage b
+        let szAt := fun (o : UInt64) => le32 im (o.toNat + 8)
+        let r := unpackIdx s.fixed used szAt (idx.toNat + 2) 0 idx []
+        -- the size field of the entry that was found = the last header read
+        let out := match r.1 with
+          | .error e => "err " ++ e.name
+          | .ok () =>
+            let hdrs := r.2.filter (fun a => a.buf == .idxSrc && a.len == 12)
+            let off := (hdrs.getLast?.map (·.off)).getD 0
+            s!"ok {szAt off.toUInt64}"
+        (s, out ++ unsafeTag r.2)
+      | _, _, _ => (s, "bad-op")
+  | ["resolve", nm, pa] => match fromHex nm, fromHex pa with
+      | some nm, some pa =>
+        let r := resolveCompare s.fixed nm pa
+        (s, (if r.1 then "ok" else "err NO_ENTRY") ++ unsafeTag r.2)
+      | _, _ => (s, "bad-op")
+  | ["walk", spec] => match parseGraph spec with
+      | some (g, root, n) =>
+        (s, "tree " ++ showWalk (readTree g (n + 2) root) ++ " tar " ++ showWalk (tarWalk s.fixed g (n + 3) root))
+      | none => (s, "bad-op")
+  | _ => (s, "bad-op")
+
+def run (args : List String) : IO Unit := do
+  let fixed := !(args.contains "current")
+  stateLoop (← IO.getStdin) (← IO.getStdout) step ({ fixed := fixed } : St)
+
 end Driver.C05
